@@ -42,9 +42,14 @@ ECoords(cs, order) == U32(Len(cs), order) \o Cat([i \in DOMAIN cs |-> ECoord(cs[
 ERings(rs, order) == U32(Len(rs), order) \o Cat([i \in DOMAIN rs |-> ECoords(rs[i], order)])
 NaNPoint(l, order) == Cat([i \in 1..Stride(l) |-> F64(NAN, order)])
 
+\* WKB and EWKB have type codes for XY, XYZ, XYM and XYZM only: a geometry in any other layout (more than four
+\* dimensions; no layout at all, except a collection, whose layout is that of its members) has no encoding
+NodeOK(g) == g.l \in {"XY", "XYZ", "XYM", "XYZM"} \/ (g.t = "GC" /\ g.l = "No")
 RECURSIVE Enc(_, _, _)
-\* flavor in {"wkb", "wkbnan", "ewkb"}; result <<>> means "not encodable" (an empty point in plain WKB)
+\* flavor in {"wkb", "wkbnan", "ewkb"}; result <<>> means "not encodable" (an empty point in plain WKB; a node in a
+\* layout the formats cannot carry)
 Enc(g, order, flavor) ==
+  IF ~NodeOK(g) THEN <<>> ELSE
   LET hasSrid == flavor = "ewkb" /\ g.srid # <<>>
       head == OrderByte(order)
               \o (IF flavor = "ewkb" THEN EwkbType(g.t, g.l, hasSrid, order) ELSE IsoType(g.t, g.l, order))
@@ -109,6 +114,14 @@ DropSrid(g) == IF g.t \in {"MPT", "MLS", "MPG", "GC"}
 Canon(g, flavor) ==
   LET d == DropSrid(g) IN
   IF flavor = "ewkb" /\ g.srid # <<>> /\ g.srid # <<0, 0, 0, 0>> THEN [d EXCEPT !.srid = g.srid] ELSE d
+\* SRIDs on the MEMBERS of a collection: PostGIS writes the SRID on the outermost geometry only and its reader ignores
+\* one found on a member; the property speaks of "the" SRID of a geometry.  What an encoder does with a member's own SRID
+\* (drop it, write it) and what a decoder does with one it reads is therefore left open: such geometries are compared
+\* with the member SRIDs stripped on both sides (StripM), the outermost SRID must round-trip.
+RECURSIVE AnySrid(_)
+AnySrid(g) == g.srid # <<>> \/ (g.t \in {"MPT", "MLS", "MPG", "GC"} /\ \E i \in DOMAIN g.body : AnySrid(g.body[i]))
+HasMemberSrid(g) == g.t \in {"MPT", "MLS", "MPG", "GC"} /\ \E i \in DOMAIN g.body : AnySrid(g.body[i])
+StripM(x) == [DropSrid(x) EXCEPT !.srid = x.srid]
 
 \* ================================================================ Part 2: reference decoder on bytes
 HUGE == 65536
